@@ -5,16 +5,25 @@ SPEC = {
     "streams": [
         {"name": "ckpt", "cmd": "ckpt",
          "args": {"quick": ["-trees", "26", "-per-tree", "4", "-kmax", "400", "-boundary", "3"],
-                  "thorough": ["-trees", "500", "-per-tree", "5", "-maxn", "3000", "-kmax", "3000", "-stack-budget", "6000000", "-kwork", "3000000", "-boundary", "60"]},
+                  "thorough": ["-trees", "250", "-per-tree", "5", "-maxn", "3000", "-kmax", "2000", "-stack-budget", "3000000", "-kwork", "1000000", "-boundary", "30"]},
          "search_args": ["-trees", "150", "-per-tree", "4", "-kmax", "0"]},
+        {"name": "restorer", "cmd": "ckpt",
+         "args": {"quick": ["-mode", "restorer", "-cases", "50"],
+                  "thorough": ["-mode", "restorer", "-cases", "600"]},
+         "search_args": ["-mode", "restorer", "-cases", "400"]},
+        {"name": "frame", "cmd": "ckpt",
+         "args": {"quick": ["-mode", "frame", "-cases", "24"],
+                  "thorough": ["-mode", "frame", "-cases", "300"]}},
     ],
     "trusted_base": [
         "Coq 8.16.1 kernel (coqc); no native_compute",
         "harness/cmd/ckpt (drives the real checkpoint.NewFileCreator / NewRestorer on real badger and pathbadger databases in temp dirs; independent snappy/CBOR/node decoder for the chunk files)",
         "harness/cmd/gen ckptconsts (go/ast reader: maxProofDepth and its comparison, the splitTasks iteration bound, the sequential loop comparison, proof version, node prefixes, width of the length fields)",
         "vm_compute evaluation of Verif.Ckpt.Stack.run_both on the recorded (tree, chunk size, threads) cases: per-chunk key lists in proof order, both chunkers, threads 0..32; for threads > 0 and bounded work both model layers are evaluated (the count abstraction of Ckpt/Model.v and the port of the subtree{path,pending} stack machine with the proof builder's included set, Ckpt/Stack.v) and must agree with the real chunker and with each other; trees above 60 keys are rebuilt from the shape dumped from the real database (whole-tree proof) instead of by the model's insert",
+        "stream restorer: generated call schedules (StartRestore with genuine/forged metadata, AbortRestore, RestoreChunk with genuine / bit-flipped / foreign files, duplicates, out-of-range slots, Finalize with wrong and right root) on the real restorer; the answer to every call against Verif.Ckpt.RestorerCorr.run_restorer (the model rstep instantiated with symbolic files)",
+        "stream frame: the uncompressed stream of every chunk file of small real checkpoints, byte for byte, against Verif.Ckpt.FrameCorr.run_frame (model chunk -> proof entries -> CBOR stream; the payloads of hash entries are taken from the real stream since the model has no SHA-512/256)",
         "Verif.Mkvs.Trie (trie model; its correspondence is checked by C02/C03)",
-        "modelled abstractly: snappy + CBOR framing and node decoding (a function bytes -> option proof), the digest and node hashes (abstract functions, collision disjunct), the node database during a multipart restore (the set of imported key/value pairs); not modelled: goroutine scheduling inside RestoreChunk, badger/pathbadger key layout (exercised by the harness only)",
+        "snappy is abstract (unsnap (snap x) = Some x); the CBOR stream layer and the serialization of proof entries are concrete (Ckpt/Frame.v, round trip proved for the stream layer), the parser from entries back to a proof stays abstract (a function bytes -> option proof with decode (enc c) = Some c as premise of the history theorems), the digest and node hashes (abstract functions, collision disjunct), the node database during a multipart restore (the set of imported key/value pairs); not modelled: goroutine scheduling inside RestoreChunk, badger/pathbadger key layout (exercised by the harness only)",
     ],
     "assumptions": [
         "the port of the stack machine identifies nodes by subtree value where the code identifies them by hash (in a well-formed tree different positions hold different subtrees: proved, nodes_nodup); its refinement of the count abstraction is proved (par_stack_refines_count) for non-empty trees; the empty tree (one nil chunk) is covered by evaluation only",
@@ -25,6 +34,6 @@ SPEC = {
 
 MANIFEST = {
     "technique": "Coq proof (coverage invariant over split/emit/filter of the lock-step parallel chunker, key-run partition of the sequential chunker, order-insensitive idempotent import, proof-verification soundness modulo hash collisions) with differential correspondence check of both real chunkers and an implementation-side restore oracle on both node database backends",
-    "level_text": "Theorems in coq/Props/C12.v hold for every well-formed tree, every chunk size and every thread count: every chunk recomputes to the checkpoint root and carries only pairs of the tree, every pair is carried by some chunk, the sequential chunks partition the contents in order, the parallel rounds terminate, importing the chunks in any order with any repetitions yields exactly the contents (hence, by canonicity of the trie, the same tree and root), the chunk list depends only on (contents, chunk size, threads), a chunk with a wrong digest / undecodable / non-verifying proof changes nothing, and an accepted chunk is the genuine file and shows only pairs of the tree unless a hash collides. The model is tied to the code by creating real checkpoints (sequential and parallel chunkers) on real databases, decoding every chunk file independently and comparing the per-chunk key lists with the model evaluated in Coq; restores with random orders, duplicates, 1-8 goroutines, abort/restart, chunk sizes placed exactly on / one below / one above the recomputed size estimate of a chunk (with an implementation-side oracle for the sequential boundary rule), a deterministic in-flight interleaving (one chunk pinned inside RestoreChunk by a blocking reader while another caller restores all others, with and without a duplicate of the pinned chunk: no call may report done before the pinned import completed) and seven corruption classes are judged by an oracle on the implementation (full iteration of the restored root equals the original contents).",
+    "level_text": "Theorems in coq/Props/C12.v hold for every well-formed tree, every chunk size and every thread count: every chunk recomputes to the checkpoint root and carries only pairs of the tree, every pair is carried by some chunk, the sequential chunks partition the contents in order, the parallel rounds terminate, importing the chunks in any order with any repetitions yields exactly the contents (hence, by canonicity of the trie, the same tree and root), the chunk list depends only on (contents, chunk size, threads), a chunk with a wrong digest / undecodable / non-verifying proof changes nothing, and an accepted chunk is the genuine file and shows only pairs of the tree unless a hash collides. The model is tied to the code by creating real checkpoints (sequential and parallel chunkers) on real databases, decoding every chunk file independently and comparing the per-chunk key lists with the model evaluated in Coq; restores with random orders, duplicates, 1-8 goroutines, abort/restart, chunk sizes placed exactly on / one below / one above the recomputed size estimate of a chunk (with an implementation-side oracle for the sequential boundary rule), a deterministic in-flight interleaving (one chunk pinned inside RestoreChunk by a blocking reader while another caller restores all others, with and without a duplicate of the pinned chunk: no call may report done before the pinned import completed) and seven corruption classes are judged; the restorer's bookkeeping is tied to the model by generated call schedules (answer to every StartRestore / AbortRestore / RestoreChunk / Finalize call) and the chunk file framing by comparing the uncompressed stream of real chunk files byte for byte with the model's serialization; restores by an oracle on the implementation (full iteration of the restored root equals the original contents).",
     "level_note": "Trusted: Coq kernel; the harness and its chunk decoder; the abstraction of the parallel chunker's traversal stack (validated by correspondence, not proved); framing, hashing and the node database are abstract in the model. The proof verifier's depth limit (128) is part of the model: chunks_verify carries the hypothesis and a refutation witness shows it is needed.",
 }
